@@ -140,6 +140,7 @@ partial def seOf (j : Json) : SE :=
   | "vector" => .vector (seOf (j.getObjValD "e"))
   | "neg" => .neg (seOf (j.getObjValD "e"))
   | "fn" => .fn ((j.getObjValD "keeps").getBool?.toOption.getD false) (seOf (j.getObjValD "e"))
+  | "agg" => .agg ((j.getObjValD "keeps").getBool?.toOption.getD false) (seOf (j.getObjValD "e"))
   | _ => .bin (opOf ((j.getObjValD "op").getStr?.toOption.getD "")) ((j.getObjValD "bool").getBool?.toOption.getD false)
       (seOf (j.getObjValD "l")) (seOf (j.getObjValD "r"))
 
